@@ -12,7 +12,7 @@ alarms=0; echo "[" > "$DIR/results.json.tmp"; first=1
 for name in "${NAMES[@]}"; do
   git -C /repo apply "$DIR/$name/patch.diff" || { echo "$name: patch does not apply"; alarms=$((alarms+1)); continue; }
   line=""; bad=""
-  for c in C07 C08 C11 C18 C20; do
+  for c in ${BENIGN_CHECKS:-C07 C08 C11 C18 C20}; do
     out=$(cd "$VERIF" && timeout 3600 ./check "$c" --tier quick --no-evidence 2>&1); code=$?
     line="$line $c=$code"
     if [ $code != 0 ]; then bad="$bad $c"; echo "$out" | grep -E "^violation|VIOLATION|harness" | head -3 | cut -c1-400; fi
@@ -23,6 +23,7 @@ for name in "${NAMES[@]}"; do
   [ $first = 0 ] && echo "," >> "$DIR/results.json.tmp"; first=0
   printf '{"name":"%s","status":"%s","exit_codes":"%s"}' "$name" "$st" "$line" >> "$DIR/results.json.tmp"
 done
-echo "]" >> "$DIR/results.json.tmp"; mv "$DIR/results.json.tmp" "$DIR/results.json"
+OUTFILE="$DIR/results.json"; [ -n "${BENIGN_CHECKS:-}" ] && OUTFILE="$DIR/results_$(echo $BENIGN_CHECKS | tr ' ' '_').json"   # a run over some checks never overwrites the full table
+echo "]" >> "$DIR/results.json.tmp"; mv "$DIR/results.json.tmp" "$OUTFILE"
 echo "changes with an alarm: $alarms of ${#NAMES[@]}"
 [ $alarms = 0 ]
